@@ -169,6 +169,91 @@ def g_reuse_after_query():
     return run
 
 
+def g_inner_loop_fixed_point():
+    """one application of psuedo_equilibrium_inner_loop (the map iterated by the default 'pseudo equilibrium'
+    method) on symbolic (ln K, gamma_y), z, phi with uninterpreted activity coefficients.  The accelerated
+    fixed-point solver is taken at its contract - it returns a fixed point of the map - and at a fixed point
+    every chemical must have the same activity x_i*gamma_i(x) in both liquids (up to the common normalisation
+    factor sum(K*x)), which is the equilibrium condition of C15."""
+    def run(E):
+        import math
+        import numpy as np
+        lle = C.mod('thermosteam.equilibrium.lle')
+        n = 2
+        T = 300.0
+        f = lle.psuedo_equilibrium_inner_loop
+        f = getattr(f, 'py_func', f)         # the stub activity model is a Python callable
+
+        def f_gamma(x, T_, *a):
+            E.stub_called('gamma')
+            out = []
+            for i in range(n):
+                g = E.uf(f'gamma{i}', *list(x))
+                E.assume(g > 0)
+                out.append(g)
+            return C.array(E, out) if not E.concrete else np.array(out, dtype=float)
+        z, K, gy = [], [], []
+        for i in range(n):
+            v = E.real(f'z{i}', nice=(0.1, 0.9))
+            E.assume(v > 0)
+            z.append(v)
+            k = E.real(f'K{i}', nice=(0.05, 20))
+            E.assume(k > 0)
+            K.append(k)
+            g = E.real(f'gammay{i}', nice=(0.5, 20))
+            E.assume(g > 0)
+            gy.append(g)
+        E.assume(E.eq(sum(z), 1.0))
+        phi = E.real('phi', lo=0, hi=1, nice=(0.2, 0.8))
+        E.assume(E.all([phi > 0, phi < 1]) if not E.concrete else 0 < phi < 1)
+        if E.concrete:
+            L = [math.log(k) for k in K]
+            vec = np.array(L + gy, dtype=float)
+            new = f(vec, np.array(z, dtype=float), T, n, f_gamma, (), phi)
+            fixed = all(core._concrete_eq(a, b, 1e-9) for a, b in zip(new, vec))
+            E.assume(fixed, 'the solver returned a fixed point of the inner loop')
+        else:
+            L = [E.uf('ln', k) for k in K]
+            for l, k in zip(L, K):
+                E.assume(E.eq(E.uf('exp', l), k), 'exp(ln K) == K')
+            vec = C.array(E, L + gy)
+            new = list(f(vec, C.array(E, z), T, n, f_gamma, (), phi))
+            # ln is injective: the K recomputed by the loop is compared through its logarithm
+            x0 = [zi / (1.0 + phi * (k - 1.0)) for zi, k in zip(z, K)]
+            sx = sum(x0)
+            x = [v / sx for v in x0]
+            gx = [E.uf(f'gamma{i}', *x) for i in range(n)]
+            y1 = [(gx[i] / gy[i]) * x[i] for i in range(n)]
+            s1 = sum(y1)
+            y1 = [v / s1 for v in y1]
+            Knew = [gx[i] / E.uf(f'gamma{i}', *y1) for i in range(n)]
+            for i in range(n):
+                E.assume(E.implies(E.eq(E.uf('ln', Knew[i]), L[i]), E.eq(Knew[i], K[i])), 'ln is injective')
+            E.assume(E.all([E.eq(a, b) for a, b in zip(new, L + gy)]), 'the solver returned a fixed point of the inner loop')
+        # phase compositions implied by (K, phi): x = z / (1 + phi (K - 1)) normalised, y = K x normalised
+        x0 = [zi / (1.0 + phi * (k - 1.0)) for zi, k in zip(z, K)]
+        sx = sum(x0)
+        x = [v / sx for v in x0]
+        y0 = [k * v for k, v in zip(K, x)]
+        sy = sum(y0)
+        y = [v / sy for v in y0]
+        gx = [E.uf(f'gamma{i}', *x) for i in range(n)]
+        ax = [x[i] * gx[i] for i in range(n)]
+        E.observe('x0', x[0])
+        # the chain of the argument is spelled out (z3 does not find the congruence step gamma(y) = gamma(y') by
+        # itself): (a) the K the split is computed from is the ratio of the activity coefficients the loop holds,
+        # (b) hence the composition y = K x / sum(K x) IS the composition y' at which the loop evaluated gamma_y,
+        # so gamma(y) = gamma_y, and (c) with it x_i gamma_i(x) : y_i gamma_i(y) is the same for all chemicals
+        y1 = [(gx[i] / gy[i]) * x[i] for i in range(n)]
+        s1 = sum(y1)
+        y1 = [v / s1 for v in y1]
+        ay = [y[i] * gy[i] for i in range(n)]
+        E.prove('fixed-point-of-the-inner-loop-has-equal-activities-in-both-liquids',
+                E.all([E.eq(K[i] * gy[i], gx[i]) for i in range(n)] + [E.eq(a, b) for a, b in zip(y, y1)] + [E.eq(ax[0] * ay[1], ax[1] * ay[0])]),
+                sig='pseudo equilibrium/n=2')
+    return run
+
+
 def g_top_chemical():
     def run(E):
         th = _fx['th']
@@ -255,6 +340,7 @@ def groups(tier):
     return {
         'lle-reuse-guard': (g_reuse_guard(), dict(qtimeout_ms=20000, max_paths=400000)),
         'lle-reuse-after-query': (g_reuse_after_query(), dict(qtimeout_ms=20000, max_paths=400000)),
+        'lle-inner-loop-fixed-point': (g_inner_loop_fixed_point(), dict(qtimeout_ms=60000, stubs_required=('gamma',))),
         'lle-top-chemical': (g_top_chemical(), dict(qtimeout_ms=30000, max_paths=400000)),
         'sle-rules': (g_sle_rules(), dict(qtimeout_ms=20000, max_paths=400000)),
     }
